@@ -22,10 +22,12 @@ class Item(dict):
 def _call_chain(an, m, f):
     """The module functions applied one inside the other (by first argument) in f's returned expression, innermost first."""
     from .encode_model import inline_locals
-    rets = [n for n in ast.walk(f.node) if isinstance(n, ast.Return) and n.value is not None]
+    # the returned expression first (locals inlined); then any call expression of the body, so that a driver which keeps its result in a
+    # local or a table before returning it is still recognised by the three stages it composes
+    cands = [inline_locals(f.node, n.value) for n in ast.walk(f.node) if isinstance(n, ast.Return) and n.value is not None]
+    cands += [n for n in ast.walk(f.node) if isinstance(n, ast.Call)]
     best = []
-    for r in rets:
-        e = inline_locals(f.node, r.value)
+    for e in cands:
         chain = []
         while isinstance(e, ast.Call) and isinstance(e.func, ast.Name) and e.func.id in m.functions and e.args:
             chain.append(m.functions[e.func.id])
